@@ -3,7 +3,7 @@
 //! and thorough-tier two-call histories that do not use the selector hook
 //! (C13, C14, C15) — a cross-check of the inductive argument of DESIGN §3.6.
 use super::ctx::Cfg;
-use super::dec::ref_decode;
+use super::dec::{judge, ref_decode};
 use crate::kf;
 use crate::src::*;
 use crate::{chk, cov, covopt, reached};
@@ -191,4 +191,27 @@ pub fn uuid_twice<S: Src, const P: u8>(s: &mut S) {
         chk!(s, P, C15, ok, "Get Endpoint UUID reports the UUID installed last, unaffected by the packet processed in between");
         cov!(s, P, C15, u1[0] != u2[0] && r1.accept, "hist: differing UUIDs, traffic in between");
     }
+}
+
+/// C09 / C02: the same context decodes twice from the *same buffer*, whose
+/// content is replaced in between. The second verdict must be the one the
+/// bytes alone deserve (no dependence on history or on buffer identity).
+pub fn dec_twice<S: Src, const P: u8, const N: usize>(s: &mut S) {
+    let cfg: Cfg<1, 1> = Cfg::draw(s);
+    let first: [u8; N] = s.arr();
+    let second: [u8; N] = s.arr();
+    let n = s.usize();
+    s.assume(n <= N);
+    s.assume(!kf::dec_any(&first[..n]) && !kf::dec_any(&second[..n]));
+    let ctx = cfg.build();
+    let mut buf = first;
+    let _ = ctx.decode_packet(&buf[..n]);
+    let mut i = 0;
+    while i < N {
+        buf[i] = second[i];
+        i += 1;
+    }
+    let r2 = ctx.decode_packet(&buf[..n]);
+    reached!(s, "hist: second decode from the same buffer returned");
+    judge::<S, P>(s, &buf[..n], &r2);
 }
